@@ -48,8 +48,11 @@ ARGS = [
     "[]", "[1]", "[1, \"a\", None]", "[[]]", "NESTED_L", "SELF_L", "BIG_L", "{}", "{1: 2}", "{\"a\": [1]}", "SELF_D", "()", "(1,)", "(1, (2, 3))", "set()", "set([1, 2])",
     "DEF_F", "DEF_0", "lambda x: x", "len", "int", "str", "list", "STRUCT_V", "REC_T", "REC_V", "ENUM_T", "ENUM_V", "range(3)", "range(0)", "range(1 << 16)",
     "typing.Any", "int | str", "[1].append", "\"a\".join", "struct", "struct()", "range(5, 0, -1)",
+    # bytes: complete, truncated and invalid UTF-8 sequences, NUL, high bytes
+    "b\"\"", "b\"abc\"", "b\"\\xc3\\xa9\"", "b\"\\xc3\"", "b\"ab\\xe4\\xb8\"", "b\"\\xf0\\x9f\\x98\"", "b\"\\xff\\xfe\\x00\"", "b\"\\x80\"", "bytes(\"\\u00e9\")[:1]", "bytes([255, 0, 195])",
+    "[b\"\\xe4\\xb8\"]", "{b\"\\xc3\": b\"\\xf0\\x9f\"}", "(b\"\\xc2\", 1)",
 ]
-SAMPLE_VALUES = ["\"abc\"", "[1, 2]", "{\"a\": 1}", "set([1])", "(1, 2)", "1", "1.5", "True", "None", "range(3)", "STRUCT_V", "REC_V", "REC_T", "ENUM_T", "ENUM_V", "DEF_F", "len",
+SAMPLE_VALUES = ["b\"abc\"", "\"abc\"", "[1, 2]", "{\"a\": 1}", "set([1])", "(1, 2)", "1", "1.5", "True", "None", "range(3)", "STRUCT_V", "REC_V", "REC_T", "ENUM_T", "ENUM_V", "DEF_F", "len",
                  "int", "(1 << 100)", "typing.Any", "[1].append", "json", "typing"]
 WRAPS = [
     "%s",
@@ -64,7 +67,8 @@ WRAPS = [
     "struct(a=%s)",
 ]
 OPS = ["+", "-", "*", "//", "%", "/", "&", "|", "^", "<<", ">>", "==", "!=", "<", "<=", ">", ">=", "in", "not in", "and", "or"]
-SMALL = ["0", "1", "-1", "2", "3", "65536", "\"\"", "\"a\"", "[]", "[1]", "(1,)", "None", "True", "1.5", "{}", "set([1])", "\"%s\"", "\"%d\"", "\"{}\"", "SELF_L", "STRUCT_V", "range(3)"]
+SMALL = ["0", "1", "-1", "2", "3", "65536", "\"\"", "\"a\"", "[]", "[1]", "(1,)", "None", "True", "1.5", "{}", "set([1])", "\"%s\"", "\"%d\"", "\"{}\"", "SELF_L", "STRUCT_V", "range(3)",
+         "\"%r\"", "\"{!r}\"", "b\"\\xc3\"", "b\"a\\xe4\\xb8\"", "(b\"\\xf0\\x9f\",)"]
 
 
 def inventory(svh):
